@@ -22,7 +22,7 @@ def install_arena_cache():
 
 def main():
     check, inp, outp = sys.argv[1:4]
-    install_arena_cache()
+    import qv  # noqa: F401  (installs the arena cache)
     faulthandler.enable()
     faulthandler.dump_traceback_later(1500, exit=False)
     sys.setrecursionlimit(3000)
@@ -31,10 +31,27 @@ def main():
         shard = json.load(f)
     if hasattr(mod, 'worker_init'):
         mod.worker_init()
+    import signal
+
+    class CaseTimeout(BaseException):
+        pass
+
+    def on_alarm(signum, frame):
+        raise CaseTimeout()
+    signal.signal(signal.SIGALRM, on_alarm)
+    case_timeout = int(getattr(mod, 'CASE_TIMEOUT', 180))
     with open(outp, 'w') as out:
         for i, case in shard:
             try:
-                r = mod.run_case(case)
+                signal.alarm(case_timeout)
+                try:
+                    r = mod.run_case(case)
+                finally:
+                    signal.alarm(0)
+            except CaseTimeout:
+                r = {'case_timeout': case_timeout, 'stack': ''.join(traceback.format_stack()[-3:])}
+                if hasattr(mod, 'on_case_timeout'):
+                    r = mod.on_case_timeout(case, case_timeout)
             except Exception as e:  # harness bug: report as such, never as a verdict
                 r = {'harness_error': ''.join(traceback.format_exception(type(e), e, e.__traceback__))[-3000:]}
             out.write(json.dumps({'i': i, 'r': r}, default=repr) + '\n')
